@@ -147,14 +147,14 @@ fn check_plain(m: &AnyManifest) -> Outcome {
     let net = network();
     let kind = Kind::of(m);
     let text = match catch(std::panic::AssertUnwindSafe(|| decompile_any(m, &net))) {
-        Err(p) => return Outcome::Broken(format!("decompile-panic:{}", p.site()), json!({"panic": p.summary()})),
+        Err(p) => return Outcome::Broken(format!("decompile-panic:{}", panic_site(&p)), json!({"panic": p.summary()})),
         Ok(Err(e)) => return Outcome::Broken(format!("decompile-error:{}", variant_name(&e)), json!({"error": format!("{e:?}")})),
         Ok(Ok(t)) => t,
     };
     let p0 = parts(m);
     let blobs = BlobProvider::new_with_prehashed_blobs(p0.blobs.iter().cloned().collect());
     let compiled = match catch(std::panic::AssertUnwindSafe(|| compile_any_manifest(&text, kind.manifest_kind(), &net, blobs))) {
-        Err(p) => return Outcome::Broken(format!("recompile-panic:{}", p.site()), json!({"panic": p.summary(), "text": text})),
+        Err(p) => return Outcome::Broken(format!("recompile-panic:{}", panic_site(&p)), json!({"panic": p.summary(), "text": text})),
         Ok(Err(e)) => {
             if text.trim().is_empty() {
                 return Outcome::Broken("recompile-error:empty-manifest-text-rejected".into(), json!({"error": format!("{e:?}"), "text": text}));
